@@ -90,6 +90,9 @@ def compile_db(repo=None):
                 flags += expand(mv, mv.get(v, '')).split()
             flags = [f.replace('$(top_srcdir)', repo) for f in flags]
             flags = [('-I' + repo + f[2 + len(REPO):]) if f.startswith('-I' + REPO + '/') else f for f in flags]
+            # a scratch copy carries the Makefile of the configured tree: its absolute include directories name that tree
+            for top in set(x for x in (mv.get('abs_top_srcdir'), mv.get('abs_top_builddir'), '/repo') if x and x != repo):
+                flags = [('-I' + repo + f[2 + len(top):]) if f.startswith('-I' + top + '/') else f for f in flags]
         else:
             srcs = FALLBACK_SRCS + (FALLBACK_WRAP if fl != 'vanilla' else [])
             flags = [f.replace(REPO, repo) for f in FALLBACK_COMMON] + ['-DMYTH_WRAP=' + wrapdef]
